@@ -23,7 +23,7 @@
 EXTENDS Integers, Sequences, FiniteSets, TLC
 
 NoEx == [pid |-> -1, seq |-> -1, ch |-> -1, hex |-> "", first |-> 0, last |-> 0,
-         ntx |-> 0, fate |-> "none", ft |-> 0, lastTx |-> 0, ep |-> -1, ast |-> -1]
+         ntx |-> 0, fate |-> "none", ft |-> 0, lastTx |-> 0, ep |-> -1, ast |-> -1, nfor |-> 0]
 
 Init0 ==
   [ R |-> 0, T |-> 0, H |-> 0, M |-> 256, tcp |-> FALSE, exact |-> TRUE, slk |-> 0, run |-> 0,
@@ -73,7 +73,7 @@ Init0 ==
     hbBadT |-> -1,           \* time of the last own-channel non-OK response, or -1
     \* ---- C05
     bus |-> << >>, busSet |-> {}, succLastIdx |-> 0,
-    gwAcked |-> {}, toSeqs |-> {}, lastAckedIdx |-> 0, accSeq |-> << >>,
+    gwAcked |-> {}, recvd |-> {}, toSeqs |-> {}, lastAckedIdx |-> 0, accSeq |-> << >>,
     \* ---- verdicts of this step
     bad |-> << >>, note |-> << >> ]
 
@@ -241,7 +241,7 @@ OutTunnelReq(o, e) ==
          keep == IF o.ex.pid \in o.called THEN Append(o5.xs, o5.ex) ELSE o5.xs
          o6 == [o5 EXCEPT !.xs = keep,
                           !.ex = [pid |-> e.pid, seq |-> e.seq, ch |-> e.ch, hex |-> e.hex, first |-> t,
-                                  last |-> t, ntx |-> 1, fate |-> IF o.phase = "down" THEN "term" ELSE "open", ft |-> t, lastTx |-> t, ast |-> -1,
+                                  last |-> t, ntx |-> 1, fate |-> IF o.phase = "down" THEN "term" ELSE "open", ft |-> t, lastTx |-> t, ast |-> -1, nfor |-> 0,
                                   ep |-> IF oldEp THEN o.epoch - 1 ELSE o.epoch],
                           !.everTx = @ \cup {e.pid},
                           !.sndNext = IF oldEp THEN @ ELSE e.seq, !.sndAlt = IF oldEp THEN @ ELSE 0,
@@ -253,7 +253,7 @@ OutTunnelReq(o, e) ==
         THEN IF \E i \in 1..Len(o6.park) : o6.park[i].seq = e.seq THEN [o6 EXCEPT !.ex.fate = "amb"] ELSE o6
         ELSE ConsumeParked(o6, e.seq)
 
-InTunnelRes(o, e) ==
+InTunnelRes0(o, e) ==
   IF ~o.tcp /\ o.phase = "up" /\ o.unsettled /\ e.ch # o.ch /\ e.ch = o.oldCh /\ ExOpen(o) /\ e.ch = o.ex.ch /\ e.seq = o.ex.seq
   THEN [o EXCEPT !.ex.fate = "amb", !.ex.ft = e.t]     \* old-epoch acknowledgement for an old-epoch request
   ELSE
@@ -278,6 +278,13 @@ InTunnelRes(o, e) ==
   \* parked; if the previous Send has not returned yet it may still take (and drop) this one
   ELSE [o EXCEPT !.park = Append(@, [seq |-> e.seq, st |-> e.st, t |-> e.t, m |-> (o.ex.pid \in o.called)])]
 
+\* acknowledgements that must be ignored (foreign channel, other sequence number) are counted
+\* while an exchange is open: an unexplained early failure of that Send is then attributed to them
+InTunnelRes(o, e) ==
+  LET o1 == InTunnelRes0(o, e)
+      ignored == ExOpen(o) /\ (e.ch # o.ex.ch \/ e.seq # o.ex.seq)
+  IN IF ignored /\ o1.ex.pid = o.ex.pid THEN [o1 EXCEPT !.ex.nfor = @ + 1] ELSE o1
+
 \* The exchange record of pid, for judging its SendRet.
 ExOf(o, pid) ==
   IF o.ex.pid = pid THEN o.ex
@@ -295,8 +302,13 @@ SendRet(o, e) ==
       o2 == FlagIf(o1, x.fate = "ackE" /\ cls = "ok", "C03.ErrAckFails")
       \* C03: return no later than T after the first transmission
       o3 == FlagIf(o2, transmitted /\ ~o.tcp /\ e.t > x.first + o.T + USlk(o), "C03.ReturnDeadline")
+      \* C03: acknowledgements for another channel / sequence number never end an exchange
+      unexplained == /\ transmitted /\ ~o.tcp /\ cls # "ok" /\ x.fate = "open"
+                     /\ e.t < x.first + o.T - Slk(o) /\ ~o.termCause /\ ~o.sockSendFail /\ o.phase # "down"
+      o3b == FlagIf(o3, unexplained /\ x.nfor > 0, "C03.ForeignIgnored")
+      o3c == IF unexplained /\ x.nfor = 0 THEN Note(o3b, "drift.EarlyFailure") ELSE o3b
       \* drift-level expectations (not demanded by the property text)
-      o4 == IF x.fate = "ack0" /\ cls # "ok" THEN Note(o3, "drift.AckedButFailed") ELSE o3
+      o4 == IF x.fate = "ack0" /\ cls # "ok" THEN Note(o3c, "drift.AckedButFailed") ELSE o3c
       o5 == IF cls = "timeout" /\ transmitted /\ ~Near(o, e.t, x.first + o.T) THEN Note(o4, "drift.TimeoutTime") ELSE o4
       \* C10: after Close has returned Send never succeeds
       o5b == FlagIf(o5, cls = "ok" /\ e.pid \in o.afterClose, "C10.SendAfterCloseFails")
@@ -368,7 +380,9 @@ Recv(o, e) ==
       f1 == inAcc /\ i > 1 /\ o.acc[1].parked /\ (~o.exact \/ o.acc[1].idle = o.acc[i].idle)
       o2 == FlagIf(o1, inAcc /\ i > 1, IF f1 THEN "C17.F1.InOrder" ELSE "C17.InOrder")
       \* (a Recv recorded after CloseRet may have been taken before it: not judged; RecvNone is)
-  IN IF inAcc THEN [o2 EXCEPT !.acc = RemoveAt(@, i)] ELSE o2
+      o3 == FlagIf(o2, e.pid \in o.recvd /\ e.pid \in o.gwAcked, "C05.AppExactlyOnce")
+      o4 == [o3 EXCEPT !.recvd = @ \cup {e.pid}]
+  IN IF inAcc THEN [o4 EXCEPT !.acc = RemoveAt(@, i)] ELSE o4
 
 \* the serve loop reports that the telegram it just accepted went to a helper goroutine
 HookParked(o) ==
@@ -481,7 +495,10 @@ Step0(o, e) ==
     [] e.k = "RecvNone" -> FlagIf(oc, oc.closeRet, "C10.InboundClosedAfterClose")
     [] e.k = "RecvClosed" -> FlagIf(oc, ~(\/ oc.phase = "down" \/ oc.termCause \/ oc.closeCalled \/ oc.sockDead
                                              \/ (oc.phase = "connecting" /\ t >= oc.connT + oc.T - Slk(oc))), "C09.SpuriousTermination")
-    [] e.k = "Drained"  -> FlagIf(oc, oc.phase = "up" /\ ~oc.termCause /\ ~oc.closeCalled /\ Len(oc.acc) > 0, "C04.NothingLost")
+    [] e.k = "Drained"  -> LET open == oc.phase = "up" /\ ~oc.termCause /\ ~oc.closeCalled
+                               o1 == FlagIf(oc, open /\ Len(oc.acc) > 0, "C04.NothingLost")
+                               \* C05: what the gateway got acknowledged has reached the application (tunnel still open, single epoch)
+                           IN FlagIf(o1, open /\ oc.epoch = 1 /\ (oc.gwAcked \ oc.recvd # {}), "C05.AppExactlyOnce")
     [] e.k = "Idle"     -> [Quiescent(oc, t) EXCEPT !.idles = @ + 1]
     [] e.k = "Hook"     -> IF e.s = "tunnel-parked" THEN HookParked(oc) ELSE oc
     [] e.k = "CloseCall" -> LET \* an acknowledgement relayed but not yet consumed races with close(done)
@@ -506,7 +523,7 @@ Step0(o, e) ==
                                 o1 == FlagIf(oc, ~inA, "C05.AppExactlyOnce")
                                 ix == IF inA THEN Idx(oc.accSeq, e.a) ELSE 0
                                 o2 == FlagIf(o1, inA /\ ix <= oc.lastAckedIdx, "C05.AppOrder")
-                            IN [o2 EXCEPT !.lastAckedIdx = IF inA THEN ix ELSE @]
+                            IN [o2 EXCEPT !.lastAckedIdx = IF inA THEN ix ELSE @, !.gwAcked = @ \cup {e.a}]
     [] e.k = "GwConnected" -> [oc EXCEPT !.lastAckedIdx = 0]
     [] e.k = "Census"    -> FlagIf(oc, oc.closeRet /\ e.a > 0, "C10.NoLeak")
     [] e.k = "End"       -> FlagIf(oc, e.a > 0, "C10.NoLeak")
